@@ -673,6 +673,36 @@ fn p_family() -> Vec<Scenario> {
             v.push(Scenario { name: format!("family:{sname}:{ename}"), towers: 2, opts: *opts, steps });
         }
     }
+    // the same events while the tower is *holding* a request of the client - the notification's own delivery, or the
+    // retrier's - which it then answers properly or with another key's signature
+    for (hname, hold) in [("acknowledged-late", Reply::Hold), ("answered-late-with-another-key", Reply::HoldThenWrongKey)] {
+        let held: Vec<(&str, Vec<Step>)> = vec![
+            ("notification-in-flight", vec![Step::Script(0, add.clone(), vec![hold.clone()]), Step::RevokeNoWait(2), Step::WaitInFlight(0)]),
+            ("retry-in-flight", vec![Step::Down(0), Step::Revoke(2), Step::Script(0, add.clone(), vec![hold.clone()]), Step::Up(0), Step::WaitInFlight(0)]),
+        ];
+        for (sname, reach) in held.iter() {
+            for (ename, ev) in events.iter() {
+                // (a client that is killed while the request is held never sees the answer: nothing is proven to it)
+                if *ename == "renewed-by-the-user" || (hold == Reply::HoldThenWrongKey && (*ename == "abandoned-and-registered-again" || *ename == "restart")) {
+                    continue;
+                }
+                let mut steps = start();
+                steps.extend(reach.iter().cloned());
+                steps.extend(ev.iter().cloned());
+                steps.push(Step::Release(0));
+                steps.push(Step::Settle);
+                if hold == Reply::Hold {
+                    // (notified once more, this time waiting for the answer: from here on the commitment counts as notified)
+                    steps.extend(vec![Step::Revoke(2), Step::Settle, Step::WaitDelivered(0)]);
+                }
+                steps.extend(vec![Step::Revoke(4), Step::Settle, Step::Restart, Step::Settle, Step::Revoke(5), Step::Settle]);
+                if hold == Reply::Hold {
+                    steps.push(Step::WaitDelivered(0));
+                }
+                v.push(Scenario { name: format!("family:{sname}:{hname}:{ename}"), towers: 2, opts: slow, steps });
+            }
+        }
+    }
     v
 }
 
@@ -1492,10 +1522,10 @@ fn run_p(prop: &'static str, tier: Tier, mut scenarios: Vec<Scenario>, rule: &st
         eprintln!("MACHINERY-ERROR: {} is missing (run ./check, which builds it)", client_binary().display());
         return 2;
     }
-    let budget = Duration::from_secs(std::env::var("VERIF_BUDGET_S").ok().and_then(|v| v.parse().ok()).unwrap_or(if tier == Tier::Quick { 55 } else { 900 }));
+    let budget = Duration::from_secs(std::env::var("VERIF_BUDGET_S").ok().and_then(|v| v.parse().ok()).unwrap_or(if tier == Tier::Quick { 75 } else { 900 }));
     let deadline = Instant::now() + budget;
     let outcomes: Mutex<BTreeSet<String>> = Mutex::new(BTreeSet::new());
-    std::env::set_var("VERIF_WORKERS", std::env::var("VERIF_P_WORKERS").unwrap_or_else(|_| "48".into()));
+    std::env::set_var("VERIF_WORKERS", std::env::var("VERIF_P_WORKERS").unwrap_or_else(|_| "64".into()));
     let (res, timed_out) = crate::explore::par_map(&scenarios, Some(deadline), |_, sc| {
         let t = run_scenario(sc, &[prop]);
         outcomes.lock().unwrap().insert(t.outcome.clone());
